@@ -54,7 +54,7 @@ for pid in ids:
     if pid in claimed:
         continue
     not_applicable.append({"property_id": pid,
-                           "reason": na.get(pid, "not yet claimed: no check has been built for this property in this round")})
+                           "reason": na.get(pid, "not claimed: no check has been built for this property yet (the technique applies; planned model in DESIGN.md section 6)")})
 
 manifest = {
     "version": 1,
